@@ -65,6 +65,9 @@ def op_table():
                            ("add_crecip newf %s 2 %%d" % inr, "gd_add_crecip"), ("add_crecip89 newf %s 2 %%d" % inr, "gd_add_crecip89"),
                            ("add_spec newf%%20CONST%%20UINT8%%201 %d", "gd_add_spec"), ("add_entry newf 16 1 %d", "gd_add")):
             add(line % g, name, "medit %d" % g)
+            # Barth-style metafield code: the entry lands in the PARENT's fragment whatever index is passed
+            if "%20" not in line:
+                add((line % (1 - g)).replace("newf", ("raw" if g == 0 else "sraw") + "/newf", 1), name, "medit %d" % g)
         add("add_raw newr 1 1 %d" % g, "gd_add_raw", "dedit %d" % g)
         par = "raw" if g == 0 else "sraw"
         for line, name in (("madd_const %s newm 0x88 0x88", "gd_madd_const"), ("madd_phase %s newm raw 1", "gd_madd_phase"),
@@ -124,6 +127,11 @@ def op_table():
     # a RAW field whose data file does not exist yet
     add("putdata64 nofile 0 3 0 2 1", "gd_putdata64", "put w - R0")
     add("putdata64 snofile 0 3 0 2 1", "gd_putdata64", "put w - R1")
+    # write-mode seeks (GD_SEEK_WRITE = 4): create / open for writing the data file of the RAW leaf
+    for f, m in (("raw", "- R0"), ("sraw", "- R1"), ("phase", "0 R0"), ("xph", "0 R1"), ("xlc", "0,0 R1"), ("sph", "1 R1"), ("ac", "- R0"),
+                 ("nofile", "- R0"), ("snofile", "- R1")):
+        add("seek64 %s 0 5 4" % f, "gd_seek64", "seekw w " + m)
+        add("seek64 %s 0 500 4" % f, "gd_seek64", "seekw w " + m)
     # cross-fragment effects
     add("rename sraw newsraw 2", "gd_rename", "renupdb 1 0,1")   # GD_REN_UPDB: rewrites the users of sraw (xph in fragment 0, sph in 1)
     add("rename raw newraw 2", "gd_rename", "renupdb 0 0")
@@ -161,9 +169,7 @@ def op_table():
     # lifetime calls and readers: nothing may change under RDONLY / protection
     for line, name in (("flush !", "gd_flush"), ("sync !", "gd_sync"), ("metaflush", "gd_metaflush"), ("raw_close !", "gd_raw_close"),
                        ("flush raw", "gd_flush"), ("sync sraw", "gd_sync"), ("getdata64 raw 0 0 1 0 1", "gd_getdata64"),
-                       ("getdata64 xbit 0 0 0 3 0x88", "gd_getdata64"), ("seek64 raw 0 500 4", "gd_seek64"), ("seek64 sraw 0 500 4", "gd_seek64"),
-                       ("seek64 nofile 0 5 4", "gd_seek64"), ("seek64 snofile 0 5 4", "gd_seek64"), ("seek64 nofile 0 5 0", "gd_seek64"),
-                       ("seek64 ab 0 5 4", "gd_seek64"), ("getdata64 nofile 0 0 0 2 1", "gd_getdata64"),
+                       ("getdata64 xbit 0 0 0 3 0x88", "gd_getdata64"), ("seek64 nofile 0 5 0", "gd_seek64"), ("seek64 ab 0 5 4", "gd_seek64"), ("getdata64 nofile 0 0 0 2 1", "gd_getdata64"),
                        ("seek64 xph 0 50 6", "gd_seek64"), ("get_constant const 0x88", "gd_get_constant"), ("nframes64", "gd_nframes64"),
                        ("eof64 sraw", "gd_eof64"), ("entry raw", "gd_entry"), ("validate xlc", "gd_validate"), ("desync 0", "gd_desync"),
                        ("open_limit 2", "gd_open_limit"), ("mplex_lookback 5", "gd_mplex_lookback"), ("flags 0x80 0", "gd_flags"),
@@ -273,12 +279,21 @@ def main():
     modes = ["RDWR", "RDONLY"]
     cases = []
     lv = LEVELS
+    READS = ["op getdata64 %s 0 0 0 1 0x88" % f for f in ("raw", "r16", "rc", "ac", "sraw", "P_praw", "xbit", "phase")] + ["op seek64 sraw 0 2 0"]
     for (line, name, model), mode, p0, p1 in itertools.product(table, modes, lv, lv):
         if mode == "RDONLY" and (p0, p1) not in (("none", "none"), ("all", "none"), ("none", "all"), ("format", "data")) and not chk.thorough:
             continue
-        cases.append({"id": "P%d" % len(cases), "mode": mode, "p0": p0, "p1": p1, "line": line, "name": name, "model": model,
-                      "cmds": (["rmfile nofile", "rmfile sub/snofile"] if "nofile" in line else []) +
-                              ["dump", "op " + line, "close", "reopen RDONLY", "dump"]})
+        touches_data = bool(model) and (model.startswith(("put ", "dedit", "seekw")) or (model.startswith(("move", "fattr")) and model.endswith(" 1")))
+        variants = [("", "none", [])]
+        if touches_data or name in ("gd_delete", "gd_rename", "gd_seek64", "gd_flush", "gd_sync", "gd_raw_close"):
+            # the same operation after reads have opened the data files
+            variants.append(("after-reads ", "none", READS))
+            if "sraw" in line or "xph" in line or "xlc" in line or "xbit" in line or "sph" in line or model in (None,) or "R1" in (model or "") or (model or "").endswith((" 1 1", "1 0 1")):
+                variants.append(("after-reads, fragment 1 text-encoded ", "text", READS))
+        for tag, enc1, pre in variants:
+            cases.append({"id": "P%d" % len(cases), "mode": mode, "p0": p0, "p1": p1, "enc1": enc1, "line": line, "name": name, "model": model, "tag": tag,
+                          "cmds": (["rmfile nofile", "rmfile sub/snofile"] if "nofile" in line else []) + pre +
+                                  ["dump", "op " + line, "close", "reopen RDONLY", "dump"]})
     res = c10.run_cases(exe, cases)
     chk.cov["evaluations"] = len(cases)
     viol = {}
@@ -290,7 +305,7 @@ def main():
 
     for c in cases:
         r = res.get(c["id"])
-        what = "%s [%s, fragment 0 /PROTECT %s, fragment 1 /PROTECT %s]" % ("gd_" + c["line"] if not c["line"].startswith("gd_") else c["line"], c["mode"], c["p0"], c["p1"])
+        what = "%s%s [%s, fragment 0 /PROTECT %s, fragment 1 /PROTECT %s]" % (c.get("tag", ""), "gd_" + c["line"] if not c["line"].startswith("gd_") else c["line"], c["mode"], c["p0"], c["p1"])
         if r is None:
             model_bad.append((what, "no result")); continue
         txt = "\n".join(r["out"])
